@@ -379,6 +379,22 @@ def run(chk):
                 elif pn in pins_out and s.type(new) != "input":
                     prob = prob or {"problem": "blackbox output pin is not a primary input", "pin": pn, "type": s.type(new)}
         if prob is None:
+            # only pins go: every other node is still there, of its type, with its drivers (minus a deleted pin) and its output mark
+            gone_pins = {pn for pn in pins_in + pins_out if pn.split(".")[-1] in ignl}
+            for n in base.nodes():
+                if n in pins_in or n in pins_out:
+                    continue
+                if n not in s:
+                    prob = {"problem": "a node that is not a pin was deleted", "node": n}
+                elif s.type(n) != base.type(n) or s.is_output(n) != base.is_output(n):
+                    prob = {"problem": "a node that is not a pin changed its type / output mark", "node": n}
+                else:
+                    want_fi = {f.replace(".", "_") if (f in pins_in or f in pins_out) else f for f in base.fanin(n) if f not in gone_pins}
+                    if set(s.fanin(n)) != want_fi:
+                        prob = {"problem": "a node that is not a pin changed its drivers", "node": n, "fanin": sorted(s.fanin(n)), "expected": sorted(want_fi)}
+                if prob:
+                    break
+        if prob is None:
             try:
                 fr = free_nodes(base)
                 for a in assignments(fr):
@@ -422,6 +438,15 @@ def run(chk):
             if missing or left:
                 prob = {"problem": "ignored-pin matching is not by exact pin name", "pins_wrongly_deleted": missing, "ignored_pins_left": left}
         chk.ob("C06.B.strip_blackboxes", f"strip_blackboxes::pin names sharing a suffix::ignore={ign}", prob is None, file="tx.py", func="strip_blackboxes", line=fsb.node.lineno, fact=prob or {}, expect="exactly the named pins are deleted")
+    # two pins that come out under one name (`a.b_c` and `a_b.c` -> `a_b_c`): refused like any other overlap, never merged into one node
+    twice = build({"x": ("input", []), "y": ("input", []), "a.b_c": ("bb_input", ["x"]), "a_b.c": ("bb_input", ["y"])}, outputs=[], blackboxes={"a": RefBlackBox("A", ["b_c"], []), "a_b": RefBlackBox("B", ["c"], [])})
+    r = P.call("tx.py", "strip_blackboxes", twice)
+    n_eval += 1
+    prob = None
+    if not (r[0] == "raise" and r[1] == "ValueError"):
+        prob = {"problem": "two pins share the name they are exposed under", "result": str(r)[:100],
+                "drivers_of_the_shared_node": sorted(r[1].fanin("a_b_c")) if r[0] == "return" and isinstance(r[1], RefCircuit) and "a_b_c" in r[1] else None}
+    chk.ob("C06.G.guards", "strip_blackboxes::two pins exposed under one name", prob is None, file="tx.py", func="strip_blackboxes", fact=prob or {}, expect="ValueError")
     clash = base.copy()
     clash.graph.add_node("u_q", type="buf", output=False)
     r = P.call("tx.py", "strip_blackboxes", clash)
